@@ -82,6 +82,21 @@ def hs_of_kraus(B, ks):
     return np.einsum("aim,bim->ab", B.conj(), T).real
 
 
+def povm_mats(g, d, k, rank=None):
+    """random POVM elements that are physical well inside quara's tolerance (the generator, not quara, is responsible
+    for that): rank-1 with k = d is a projective measurement in a random basis; otherwise redraw ill-conditioned ones"""
+    if rank == 1 and k == d:
+        u = qobj.rand_unitary(g, d)
+        return [np.outer(u[:, i], u[:, i].conj()) for i in range(d)]
+    for _ in range(50):
+        es = qobj.rand_povm_mats(g, d, k, rank)
+        ok = np.abs(sum(es) - np.eye(d)).max() < 1e-13 and all(np.linalg.eigvalsh((e + e.conj().T) / 2).min() > -1e-14
+                                                               for e in es)
+        if ok:
+            return es
+    raise RuntimeError("povm generator failed")
+
+
 # ----------------------------------------------------------------------------- testers
 def tester_states(g, c_sys, sysname, how):
     """how: 'typical' | 'typical_over' | 'random' | 'random_over'.  Returns (states, density matrices)."""
@@ -119,7 +134,7 @@ def tester_povms(g, c_sys, sysname, how, counts=None):
     mats = []
     for i, k in enumerate(counts):
         rank = 1 if (i % 2 == 0 and (k > d or (d == 2 and k == 2))) else None
-        mats.append(qobj.rand_povm_mats(g, d, k, rank))
+        mats.append(povm_mats(g, d, k, rank))
     pv = [Povm(c_sys, [vec_of(B, e) for e in es]) for es in mats]
     return pv, mats
 
@@ -164,10 +179,10 @@ def true_objects(g, c_sys, kind, m=2, classes=("interior", "boundary", "pure"), 
             out.append(TrueObj(kind, cl, State(c_sys, vec_of(B, rho), **kw), rho=rho))
         elif kind == "povmt":
             if cl == "interior":
-                es = qobj.rand_povm_mats(g, d, m)
+                es = povm_mats(g, d, m)
                 es = [0.8 * e + 0.2 * np.eye(d) / m for e in es]
             elif cl == "boundary":
-                es = qobj.rand_povm_mats(g, d, m, rank=1 if (m > d or d == 2) else d - 1)
+                es = povm_mats(g, d, m, rank=1 if (m > d or d == 2) else d - 1)
             else:  # projective measurement in a random basis; surplus outcomes are zero elements
                 u = qobj.rand_unitary(g, d)
                 es = [np.zeros((d, d), dtype=complex) for _ in range(m)]
